@@ -4,7 +4,8 @@ open Lean ParamVerif ParamVerif.Proto ParamVerif.TimeDyn
 
 /-- driver instantiation of the opaque functions: values are symbolic keys -/
 def symEnv : Env String (String × Nat) String :=
-  { hash := fun n s t => s!"td|{n}|{s}|{t}", reseed := fun h => (h, 0),
+  { -- numbergen Hash._rational: numerator and denominator enter the digest modulo 2**32
+    hash := fun n s t => s!"td|{n}|{s}|{t.num % 4294967296}/{t.den % 4294967296}", reseed := fun h => (h, 0),
     next := fun st => (s!"{st.1}#{st.2}", (st.1, st.2 + 1)), init := fun sid => (s!"st|{sid}", 0) }
 
 def parseKind (j : Json) : Except String GenKind := do
